@@ -30,9 +30,13 @@ def _record(pid, t, s):
     LOGS[pid].append((float(t), complex(s)))
 
 
-def make_probe(a, coeffs=(0.0, 0.0, 0.0, 1.0), complex_valued=False):
+def make_probe(a, coeffs=(0.0, 0.0, 0.0, 1.0), complex_valued=False, identity=False):
     """Create a ProbePDE instance (class is built lazily so importing this module does not
-    import the package)."""
+    import the package).  ``identity=True`` (only for a == 1 without forcing) makes the
+    right-hand side return its argument itself, as the package's own compiled expression for
+    ``PDE({"c": "c"})`` does: the stepper then holds a rate that aliases the state buffer."""
+    if identity:
+        assert a == 1 and not any(coeffs[:3])
     import numba as nb
     from pde.pdes.base import PDEBase
 
@@ -54,11 +58,31 @@ def make_probe(a, coeffs=(0.0, 0.0, 0.0, 1.0), complex_valued=False):
 
         def evolution_rate(self, state, t=0):
             _record(self.pid, t, state.data.sum())
+            if identity:
+                return state.copy()  # the interpreted route hands out its working buffer
             return self.a * state + self.forcing(t)
 
         def make_evolution_rate(self, state, backend):
             a, pid = self.a, self.pid
             c0, c1, c2, w = self.coeffs
+            if identity and backend.name == "numpy":
+
+                def rhs(arr, t):
+                    _record(pid, t, arr.sum())
+                    return arr.copy()
+
+                return rhs
+
+            if identity:
+
+                def rhs(arr, t):
+                    s = arr.sum()
+                    with nb.objmode():
+                        _record(pid, t, s)
+                    return arr
+
+                return rhs
+
             if backend.name == "numpy":
 
                 def rhs(arr, t):
